@@ -99,7 +99,8 @@ Proof. exact compress_then_decompress_safe. Qed.
 Print Assumptions C01_compress_then_decompress_safe.
 
 (* Kept visible: the same statement for LZ4_compress_HC and friends at EVERY level.  Proved below for levels 1-2
-   (LZ4MID, C01_hc_mid_... theorems) and 3-9 (hash chain, C01_hc_chain_... theorems); NOT proved for levels 10-12 (optimal parser: no Coq model). *)
+   (LZ4MID, C01_hc_mid_... theorems) 3-9 (hash chain, C01_hc_chain_... theorems) and 10-12 (optimal parser, C01_hc_opt_... theorems), each over its own model of
+   the entry points; this abstract form (an arbitrary function compress_HC) is kept only as the shape of the claim. *)
 Definition C01_hc_full_statement : Prop :=
   forall (compress_HC : mem -> Z -> Z -> Z -> Z * list byte) (src : mem) srcSize cap level,
     src_ok src -> let '(r, out) := compress_HC src srcSize cap level in
